@@ -25,7 +25,7 @@ def same(w, model):
     got = U.wfn_dict(w)
     for det, z in got.items():
         e = model.get(det, (0, 0))
-        if z.real != float(e[0]) or z.imag != float(e[1]):
+        if abs(z.real - float(e[0])) > 1e-9 * max(1.0, abs(float(e[0]))) or abs(z.imag - float(e[1])) > 1e-9 * max(1.0, abs(float(e[1]))):
             return False
     return all(det in got or e == (0, 0) for det, e in model.items())
 
@@ -117,7 +117,7 @@ def run(ctx):
                     got = complex(f(pool[i], pool[j]))
                     req = ("vdot " if op == "dot" else "inner ") + fmt_vec(to_entries(model[i])) + " " + fmt_vec(to_entries(model[j]))
                     e = parse_c(d.ask(req))
-                    if got.real != float(e[0]) or got.imag != float(e[1]):
+                    if abs(got.real - float(e[0])) > 1e-9 * max(1.0, abs(float(e[0]))) or abs(got.imag - float(e[1])) > 1e-9 * max(1.0, abs(float(e[1]))):
                         ok, what = False, f"{op} = {got}, exact {e}"
                 elif op == "norm":
                     got = pool[i].norm()
@@ -127,7 +127,7 @@ def run(ctx):
                 elif op == "max":
                     got = complex(pool[i].max_element())
                     e = Fraction(d.ask(f"vmaxnormsq {fmt_vec(to_entries(model[i]))}"))
-                    if got.real ** 2 + got.imag ** 2 != float(e):
+                    if abs(got.real ** 2 + got.imag ** 2 - float(e)) > 1e-9 * max(1.0, float(e)):
                         ok, what = False, f"max_element = {got}, largest |c|^2 = {e}"
                         entry["coeffs"] = [[a, b, [float(v[0]), float(v[1])]] for (a, b), v in model[i].items()]
                 elif op in ("get", "set"):
@@ -136,7 +136,7 @@ def run(ctx):
                     if op == "get":
                         got = complex(pool[i][det])
                         e = model[i].get(det, (0, 0))
-                        if got.real != float(e[0]) or got.imag != float(e[1]):
+                        if abs(got.real - float(e[0])) > 1e-9 * max(1.0, abs(float(e[0]))) or abs(got.imag - float(e[1])) > 1e-9 * max(1.0, abs(float(e[1]))):
                             ok, what = False, f"getitem {det} = {got}, exact {e}"
                     else:
                         v = complex(U.gint(rng))
